@@ -8,7 +8,7 @@ let pos_of_hex_exn s = match pos_of_hex s with Some p -> p | None -> failwith ("
 let opt_path s = if s = "-" then None else Some (pos_of_hex_exn s)
 let path_list s = if s = "" then [] else List.map pos_of_hex_exn (String.split_on_char ',' s)
 let fault s = if s = "-" then None else Some (nat_of_int (int_of_string ("0x" ^ s)))
-let key_of = function "flag" -> KFlag | "err" -> KErr | s -> failwith ("bad key " ^ s)
+let key_of = function "flag" -> KFlag | "err" -> KErr | "none" -> KNone | s -> failwith ("bad key " ^ s)
 let ctl_of = function "ok" -> COk | "err" -> CErr | "panic" -> CPanic | s -> failwith ("bad ctl " ^ s)
 let str_of_ctl = function COk -> "ok" | CErr -> "err" | CPanic -> "panic"
 
@@ -52,5 +52,10 @@ let dispatch fn args = match fn, args with
     let ins = path_list ins and inF = opt_path inF and outF = opt_path outF and init = fs_of_string init in
     render (known_of init ins inF outF)
       (run_api (fault flt) (key_of k) ins inF outF init (chunks_of_string chunks) (ctl_of fin))
+  | "pdf", [flt; k; input; path; init; chunks; fin] ->
+    let input = opt_path input and path = pos_of_hex_exn path and init = fs_of_string init in
+    let known = known_of init [] input (Some path) in
+    let (r, w) = run_pdf (fault flt) (key_of k) input path init (chunks_of_string chunks) (ctl_of fin) in
+    str_of_ctl r ^ "|" ^ str_of_fs known w.wfs
   | _ -> failwith ("unknown function " ^ fn)
 let () = main dispatch
